@@ -414,6 +414,11 @@ class Case:
         """named input regions (known findings are scoped by these): name -> formula"""
         return {}
 
+    def concrete_regions(self, values):
+        """names of the known-finding regions a concrete input lies in (the bounded stand-in skips
+        inputs inside regions that are excluded for this run)"""
+        return set()
+
     def grid(self, tier, rng):
         """concrete value dicts for the conformance run and the bounded stand-in"""
         return []
@@ -674,6 +679,10 @@ def verify_case(T, case, timeout_ms=None, want=None, exclude=None):
                 if not ob.size:
                     ob.size = len(alg.lift(gl).sexpr())
                     ob.sample = "(assert (not %s))" % alg.lift(gl).sexpr()[:600]
+                if gl is False:
+                    ob.status = "refuted"
+                    ob.detail = "static obligation fails: %s" % getattr(case, "detail", "")
+                    break
                 if v.status == "sat":
                     ob.status = "refuted"
                     ob.detail = "lemma step refuted: %s" % (str(v.model)[:400] if v.model is not None else "")
